@@ -711,7 +711,7 @@ class Group:
                         break
                     a.append(k.pop(nm))
                 return a, k
-            (args1, kwargs1), (args2, kwargs2) = complete(args1, kwargs1), complete(args2, kwargs2)
+            (args1, kwargs1), (args2, kwargs2), (args3, kwargs3) = complete(args1, kwargs1), complete(args2, kwargs2), complete(args3, kwargs3)
         kwargs = kwargs1
         kwshow = {k: (arg_token(v) if isinstance(v, torch.Tensor) or is_op(v) else v) for k, v in kwargs1.items()}
         desc = f"{cell} seed={self.gseed} kwargs={kwshow}"
